@@ -78,9 +78,20 @@ def main():
     with cf.ThreadPoolExecutor(6) as ex:
         for r in ex.map(one, seeds):
             summary.extend(r)
+    rows = [{"seed": a, "property": b, "status": c, "detail": d_[:600]} for a, b, c, d_ in summary]
+    rp = os.path.join(VERIF, "seeded", "RESULTS.json")
     if all_checks and not args:
-        with open(os.path.join(VERIF, "seeded", "RESULTS.json"), "w") as fh:
-            json.dump([{"seed": a, "property": b, "status": c, "detail": d_[:600]} for a, b, c, d_ in summary], fh, indent=1)
+        with open(rp, "w") as fh:
+            json.dump(rows, fh, indent=1)
+    elif all_checks and "--merge" in sys.argv and os.path.exists(rp):
+        # refresh only the rows of the seeds given on the command line
+        old = {r["seed"]: r for r in json.load(open(rp))}
+        old.update({r["seed"]: r for r in rows})
+        def _k(sid):
+            a, b = sid.split("-")
+            return (a, int(b))
+        with open(rp, "w") as fh:
+            json.dump([old[k] for k in sorted(old, key=_k)], fh, indent=1)
     for s in summary:
         also = s[3].split("| also fired:")[1].strip() if "| also fired:" in s[3] else ""
         print("%-8s %-4s %-22s %s %s" % (s[0], s[1], s[2][:22], ("also=" + also) if also else "", "" if compact else s[3][:300]))
